@@ -217,6 +217,8 @@ impl Link {
         Link { faults, used: vec![false; n], remaining, init_tsn: [None, None], dirs: [Dir::new(), Dir::new()], wire: vec![] }
     }
     pub fn exhausted(&self) -> bool { self.used.iter().all(|u| *u) && self.dirs.iter().all(|d| d.held.is_empty()) }
+    /// nothing is being held back (faults whose ordinal was never reached cannot fire without new traffic)
+    pub fn quiet(&self) -> bool { self.dirs.iter().all(|d| d.held.is_empty()) }
     /// a packet emitted by `side`; returns the packets to deliver to the peer now, in order
     pub fn forward(&mut self, side: usize, pkt: Bytes) -> Vec<Bytes> {
         self.wire.push((side, pkt.clone()));
@@ -286,7 +288,7 @@ impl Link {
 
 /// A message to submit: (sending side, channel id, payload), submitted in list order per side.
 #[derive(Clone, Debug)]
-pub struct Msg { pub side: usize, pub chan: u16, pub data: Vec<u8>, pub phase: u8 }
+pub struct Msg { pub side: usize, pub chan: u16, pub data: Vec<u8>, pub phase: u8, pub task: u8 }
 
 pub struct Case {
     pub cfg: [EpCfg; 2],
@@ -297,7 +299,13 @@ pub struct Case {
     /// stop this long after the last progress once everything was delivered / or give up after `deadline`
     pub deadline: Duration,
     pub settle: Duration,
+    /// channels to close with `close_data_channel` once everything was delivered: (side, channel id)
+    pub closes: Vec<(usize, u16)>,
 }
+
+#[derive(Clone, Debug)]
+pub struct ChanFinal { pub id: u16, pub state: usize, pub negotiated: bool, pub ordered: bool, pub max_retransmits: Option<u16>,
+    pub max_lifetime: Option<u16>, pub label: String, pub protocol: String }
 
 pub struct Outcome {
     pub traces: [Vec<hook::Ev>; 2],
@@ -305,7 +313,7 @@ pub struct Outcome {
     /// per side: application events (channel id, event) in order
     pub events: [Vec<(u16, DataChannelEvent)>; 2],
     pub snaps: [hook::Snapshot; 2],
-    pub chans_final: [Vec<(u16, usize)>; 2],
+    pub chans_final: [Vec<ChanFinal>; 2],
     pub faults_used: Vec<bool>,
     pub send_errors: Vec<String>,
     pub elapsed_ms: u128,
@@ -326,13 +334,15 @@ pub async fn run_case(c: &Case, port_base: u16) -> Outcome {
     b.start();
     a.start();
     let send_errors = Arc::new(Mutex::new(Vec::<String>::new()));
-    let mut senders_started = false;
+    let mut started0 = [false, false];
     let mut phase1_started = false;
+    let mut closes_done = c.closes.is_empty();
     let has_phase1 = c.msgs.iter().any(|m| m.phase == 1);
     let mut sender_handles: Vec<tokio::task::JoinHandle<()>> = vec![];
     let mut last_activity = Instant::now();
     let mut connected = false;
     let total_expected: usize = c.msgs.len();
+    use rustrtc::transports::sctp::SctpState;
     loop {
         let mut moved = false;
         for side in 0..2 {
@@ -350,29 +360,39 @@ pub async fn run_case(c: &Case, port_base: u16) -> Outcome {
         b.adopt_new();
         a.drain_events();
         b.drain_events();
-        if !connected {
-            let sa = a.sctp.verif_snapshot().state;
-            let sb = b.sctp.verif_snapshot().state;
-            use rustrtc::transports::sctp::SctpState;
-            connected = sa == SctpState::Connected && sb == SctpState::Connected;
-        }
-        let phase0_quiet = senders_started && sender_handles.iter().all(|h| h.is_finished()) && link.exhausted()
+        let st = [a.sctp.verif_snapshot().state, b.sctp.verif_snapshot().state];
+        connected = connected || (st[0] == SctpState::Connected && st[1] == SctpState::Connected);
+        let all_started0 = started0[0] && started0[1];
+        let phase0_quiet = all_started0 && sender_handles.iter().all(|h| h.is_finished()) && link.quiet()
             && last_activity.elapsed() > c.settle;
-        let start_phase = if connected && !senders_started { Some(0u8) }
-            else if has_phase1 && !phase1_started && phase0_quiet { Some(1u8) } else { None };
-        if let Some(ph) = start_phase {
-            if ph == 0 { senders_started = true; } else { phase1_started = true; last_activity = Instant::now(); }
-            for side in 0..2 {
-                let msgs: Vec<Msg> = c.msgs.iter().filter(|m| m.side == side && m.phase == ph).cloned().collect();
-                if msgs.is_empty() { continue; }
-                let sctp = if side == 0 { a.sctp.clone() } else { b.sctp.clone() };
+        // each side's application starts sending as soon as its own association is up; a message is
+        // submitted once its channel exists on that side
+        let mut to_start: Vec<(usize, u8)> = vec![];
+        for side in 0..2 { if !started0[side] && st[side] == SctpState::Connected { started0[side] = true; to_start.push((side, 0)); } }
+        if has_phase1 && !phase1_started && phase0_quiet { phase1_started = true; last_activity = Instant::now(); to_start.push((0, 1)); to_start.push((1, 1)); }
+        for (side, ph) in to_start {
+            let mut tasks: Vec<u8> = c.msgs.iter().filter(|m| m.side == side && m.phase == ph).map(|m| m.task).collect();
+            tasks.sort(); tasks.dedup();
+            for task in tasks {
+                let msgs: Vec<Msg> = c.msgs.iter().filter(|m| m.side == side && m.phase == ph && m.task == task).cloned().collect();
+                let ep = if side == 0 { &a } else { &b };
+                let sctp = ep.sctp.clone();
+                let chans = ep.channels.clone();
                 let errs = send_errors.clone();
                 sender_handles.push(tokio::spawn(async move {
                     for m in msgs {
+                        let t = Instant::now();
+                        // like an application: send only on a channel that has announced Open
+                        while !chans.lock().iter().any(|w| w.upgrade().map(|d| d.id == m.chan
+                            && d.state.load(std::sync::atomic::Ordering::SeqCst) == 1).unwrap_or(false)) {
+                            if t.elapsed() > Duration::from_secs(5) { errs.lock().push(format!("channel {} never opened", m.chan)); return; }
+                            tokio::time::sleep(Duration::from_millis(1)).await;
+                        }
                         if let Err(e) = sctp.send_data(m.chan, &m.data).await {
                             errs.lock().push(format!("send ch{}: {e}", m.chan));
                             break;
                         }
+                        tokio::task::yield_now().await;
                     }
                 }));
             }
@@ -390,10 +410,22 @@ pub async fn run_case(c: &Case, port_base: u16) -> Outcome {
                 }
             }
         }
-        let senders_done = senders_started && (phase1_started || !has_phase1) && sender_handles.iter().all(|h| h.is_finished());
-        let all_acked = a.sctp.verif_snapshot().sent_queue.is_empty() && b.sctp.verif_snapshot().sent_queue.is_empty()
-            && a.sctp.verif_snapshot().outbound_queue.is_empty() && b.sctp.verif_snapshot().outbound_queue.is_empty();
-        if senders_done && delivered >= total_expected && all_acked && link.exhausted() && idle > c.settle { break; }
+        let senders_done = all_started0 && (phase1_started || !has_phase1) && sender_handles.iter().all(|h| h.is_finished());
+        let sa = a.sctp.verif_snapshot();
+        let sb = b.sctp.verif_snapshot();
+        let all_acked = sa.sent_queue.is_empty() && sb.sent_queue.is_empty() && sa.outbound_queue.is_empty() && sb.outbound_queue.is_empty();
+        let _ = (delivered, total_expected);
+        let done = senders_done && all_acked && link.quiet() && idle > c.settle;
+        if done && !closes_done {
+            closes_done = true;
+            for (side, id) in &c.closes {
+                let ep = if *side == 0 { &a } else { &b };
+                if let Err(e) = ep.sctp.close_data_channel(*id).await { send_errors.lock().push(format!("close ch{id}: {e}")); }
+            }
+            last_activity = Instant::now();
+            continue;
+        }
+        if done { break; }
         if t0.elapsed() > c.deadline { break; }
         tokio::time::sleep(Duration::from_millis(1)).await;
     }
@@ -404,10 +436,10 @@ pub async fn run_case(c: &Case, port_base: u16) -> Outcome {
     b.drain_events();
     let snaps = [a.sctp.verif_snapshot(), b.sctp.verif_snapshot()];
     let traces = [hook::trace_take(pa), hook::trace_take(pb)];
-    let chans_final = [
-        a.channels.lock().iter().filter_map(|w| w.upgrade()).map(|d| (d.id, d.state.load(std::sync::atomic::Ordering::SeqCst))).collect(),
-        b.channels.lock().iter().filter_map(|w| w.upgrade()).map(|d| (d.id, d.state.load(std::sync::atomic::Ordering::SeqCst))).collect(),
-    ];
+    let fin = |ep: &Endpoint| -> Vec<ChanFinal> { ep.channels.lock().iter().filter_map(|w| w.upgrade()).map(|d| ChanFinal {
+        id: d.id, state: d.state.load(std::sync::atomic::Ordering::SeqCst), negotiated: d.negotiated, ordered: d.ordered,
+        max_retransmits: d.max_retransmits, max_lifetime: d.max_packet_life_time, label: d.label.clone(), protocol: d.protocol.clone() }).collect() };
+    let chans_final = [fin(&a), fin(&b)];
     let events = [a.events.lock().clone(), b.events.lock().clone()];
     a.shutdown();
     b.shutdown();
